@@ -90,7 +90,7 @@ func c18Template(r *R) string {
 	n := r.Range(2, 7)
 	dump := func(e string) string { return "\x01{{ " + e + "|json_encode }}\x02" }
 	for i := 0; i < n; i++ {
-		switch r.N(23) {
+		switch r.N(25) {
 		case 0, 1:
 			l, f := listAndFilter(r)
 			sb.WriteString("{{ " + l + "|" + f + "|json_encode }};")
@@ -167,6 +167,12 @@ func c18Template(r *R) string {
 				"{{ parr|" + pick(r, []string{"sort|join(',')", "reverse|first", "slice(0, 2)|json_encode", "first", "join(',')", "merge([9])|length"}) + " }}{{ arr|" + pick(r, []string{"first", "join(',')", "sort|join(',')", "reverse|first"}) + " }};",
 				"{{ pp2.Name }}{{ pp2.Tags|sort|join(',') }}{{ inil.Name|default('nil') }}{{ inil is null ? 'n' : 'p' }}{{ inil|default('d') }};",
 			}))
+		case 23:
+			// escaping applied to containers (nested lists and hashes whose strings need escaping)
+			sb.WriteString("{{ " + pick(r, []string{"html", "html|first", "html.rows", "l2", "gm", "m1"}) + "|" + pick(r, []string{"e", "escape", "e|length", "escape|json_encode", "e|first"}) + " }};{{ html.rows|first|first }};")
+		case 24:
+			// values a template only looks at (truthiness, definedness), never prints: funcs that would compute something
+			sb.WriteString("{% if svc.lazy %}L{% endif %}{{ svc.lazy is defined ? 'd' : 'u' }}{{ svc['lazy'] is null ? 'n' : 'v' }}{% if svc.handlers.lz %}H{% endif %}{% if lz %}T{% endif %};")
 		default:
 			sb.WriteString("{% do " + "n1 + 1 %}{{ pp.Inner.Name }}{{ pp.Greeting }}{{ l2|first|json_encode }};")
 		}
@@ -195,7 +201,9 @@ func (propC18) Gen(seed uint64, ex map[string]bool) interface{} {
 		KV{"arr", &Val{T: "arr"}},
 		KV{"inil", &Val{T: "inil"}},
 		KV{"buf", &Val{T: "buffer", S: "buffered <text>"}},
-		KV{"svc", &Val{T: "map", M: []KV{{"name", s("svc")}, {"fn", &Val{T: "func", S: "called"}}, {"handlers", &Val{T: "map", M: []KV{{"label", s("L")}, {"h", &Val{T: "func", S: "h-called"}}}}}}}},
+		KV{"lz", &Val{T: "lazy", S: "top"}},
+		KV{"html", &Val{T: "map", M: []KV{{"title", s("<b>T & t</b>")}, {"rows", &Val{T: "list", L: []*Val{{T: "list", L: []*Val{s("<td>"), s("a&b")}}, {T: "map", M: []KV{{"k", s("<i>\"q\"</i>")}}}}}}}}},
+		KV{"svc", &Val{T: "map", M: []KV{{"name", s("svc")}, {"fn", &Val{T: "func", S: "called"}}, {"lazy", &Val{T: "lazy", S: "computed"}}, {"handlers", &Val{T: "map", M: []KV{{"label", s("L")}, {"h", &Val{T: "func", S: "h-called"}}, {"lz", &Val{T: "lazy", S: "nested"}}}}}}}},
 		KV{"hold", &Val{T: "holder", S: "bare"}},
 		KV{"hold2", &Val{T: "holder", S: "full", I: 7}},
 		KV{"holders", &Val{T: "holders", L: []*Val{{T: "holder", S: "h1"}, {T: "holder", S: "h2", I: 2}, {T: "holder", S: "h3"}}}},
